@@ -44,6 +44,8 @@ var c09Values = []struct{ name, typ string }{
 	{"fe", "func() (int, error)"}, {"pred", "func(int) bool"}, {"u", "unsafe.Pointer"}, {"ifc", "interface{}"}, {"nil", "untyped nil"}, {"1", "untyped int"},
 	// named versions of the shapes the functional plugins take apart
 	{"nfe", "Thunk"}, {"nf1", "Fn"}, {"nsl", "Ints"}, {"nm", "Dict"},
+	// a function whose only parameter is variadic, and a slice its parameter type matches element-wise
+	{"fvo", "func(...int) int"}, {"ssl", "[][]int"},
 }
 
 var c09Reduced = []string{"i", "sl", "f1", "fv", "e", "ch", "st"}
@@ -67,6 +69,8 @@ var (
 	nf1  Fn
 	nsl  Ints
 	nm   Dict
+	fvo  func(...int) int
+	ssl  [][]int
 	i    int
 	s    string
 	b    bool
@@ -330,10 +334,12 @@ func checkC09(tier string) {
 		default:
 			outcome = "success"
 			cp := typeCheckDir(dir, true, nil)
-			var genErrs, undefErrs []string
+			var genErrs, undefErrs, callErrs []string
 			for _, e := range cp.Errors {
 				if strings.Contains(e, "derived.gen.go") {
 					genErrs = append(genErrs, e)
+				} else if strings.Contains(e, "in argument to derive") || strings.Contains(e, "in call to derive") {
+					callErrs = append(callErrs, e)
 				} else if strings.Contains(e, "undefined: derive") || strings.Contains(e, "undeclared name: derive") {
 					undefErrs = append(undefErrs, e)
 				}
@@ -344,6 +350,10 @@ func checkC09(tier string) {
 			} else if len(undefErrs) > 0 && (pr.mustGenerate || !strings.HasPrefix(pr.class, "broken=")) {
 				viol("C09", "exit-0-but-call-not-generated", "the derive call is still undefined after a successful run: "+shortErrs(undefErrs))
 				outcome = "not-generated"
+			} else if len(callErrs) > 0 && !strings.HasPrefix(pr.class, "broken=") {
+				// the generated function does not accept the arguments of the call it was generated for
+				viol("C09", "exit-0-but-call-does-not-type-check", "the derive call does not type-check against the generated function: "+shortErrs(callErrs))
+				outcome = "call-rejected"
 			}
 		}
 		mu.Lock()
@@ -359,7 +369,7 @@ func checkC09(tier string) {
 	rep.Cov["evaluations"] = len(progs)
 	rep.Cov["distinct_nontrivial"] = nontriv
 	rep.Cov["distinct_outcomes"] = outcomes
-	rep.Cov["rule"] = "state = one package holding exactly one derive call: (a) every argument tuple of length 0..2 over a 19-value alphabet (int, string, bool, complex, slice, map, pointer, struct, chan, error, plain/two-argument/variadic/error-returning/predicate functions, unsafe.Pointer, interface, nil, untyped constant) and of length 3 over a reduced alphabet, for each of the 33 plugins - this covers wrong arity, mismatched types, functions where values are needed and vice versa, variadic signatures and unordered types; (b) chan, func, interface, unsafe.Pointer or an anonymous struct (empty, one field, two fields, holding a slice) substituted at each of 14 positions of type shapes x 15 plugin templates; (c) broken user files around a supported call; transition = one run of the real goderive; oracle: terminates, no panic trace, and either non-zero exit with a naming message or exit 0 with a derived.gen.go that parses and type-checks (in-process go/types) and defines the call; directory snapshot before/after (C10); non-trivial = runs that did not simply succeed"
+	rep.Cov["rule"] = "state = one package holding exactly one derive call: (a) every argument tuple of length 0..2 over a 19-value alphabet (int, string, bool, complex, slice, map, pointer, struct, chan, error, plain/two-argument/variadic/error-returning/predicate functions, unsafe.Pointer, interface, nil, untyped constant) and of length 3 over a reduced alphabet, for each of the 33 plugins - this covers wrong arity, mismatched types, functions where values are needed and vice versa, variadic signatures and unordered types; (b) chan, func, interface, unsafe.Pointer or an anonymous struct (empty, one field, two fields, holding a slice) substituted at each of 14 positions of type shapes x 15 plugin templates; (c) broken user files around a supported call; transition = one run of the real goderive; oracle: terminates, no panic trace, and either non-zero exit with a naming message or exit 0 with a derived.gen.go that parses and type-checks (in-process go/types) and defines a function that accepts the call; directory snapshot before/after (C10); non-trivial = runs that did not simply succeed"
 	rep.Cov["bound"] = fmt.Sprintf("%d packages", len(progs))
 	rep.Cov["exhaustive"] = true
 	rep.Cov["snapshot_checked_runs"] = snapRuns
